@@ -36,9 +36,10 @@ ASSUMPTIONS = [
     "exits never raise an exception that is already part of the in-flight exception's context chain",
 ]
 
-KINDS = ["acm", "scm", "push-async", "push-sync", "push-cm", "push-scm", "callback-async", "callback-sync"]
+KINDS = ["acm", "scm", "push-async", "push-sync", "push-cm", "push-scm", "callback-async", "callback-sync",
+         "dual", "push-dual"]
 BEHAVIOURS = ["falsy", "truthy", "raise", "raise-if-exc", "reraise", "raise-base", "raise-chained", "grumpy-result", "raise-block",
-              "raise-stop", "raise-stop-async"]
+              "raise-stop", "raise-stop-async", "raise-chained-unhashable"]
 
 
 # keyword arguments of callbacks under names the stack's own methods use for their parameters
@@ -55,6 +56,15 @@ class NewBase(BaseException):
 
 class Block(Exception):
     pass
+
+
+class UnhashableError(Exception):
+    """an exception class with value equality and therefore no hash (a plain dataclass exception)"""
+
+    def __eq__(self, other):
+        return type(other) is type(self) and other.args == self.args
+
+    __hash__ = None
 
 
 class EnterAttributeError(AttributeError):
@@ -112,6 +122,15 @@ def behave(i, behaviour, received):
         raise StopIteration(("stop", i))
     if behaviour == "raise-stop-async":
         raise StopAsyncIteration(("stop", i))
+    if behaviour == "raise-chained-unhashable":
+        # ... whose context chain contains an exception that cannot be hashed (value equality, no __hash__)
+        try:
+            try:
+                raise UnhashableError(("inner", i))
+            except UnhashableError:
+                raise LookupError(("middle", i))
+        except LookupError:
+            raise New(i)
     if behaviour == "raise-chained":
         # a new exception that already carries a context chain of its own
         try:
@@ -157,6 +176,18 @@ def entry_objects(i, kind, behaviour, log, block_ref):
         def __exit__(self, et, ev, tb):
             record(ev)
             return behave(i, behaviour, ev)
+
+    class DualCM(ACM):
+        """offers the synchronous protocol as well (only to tell its user to use ``async with``): an async-neutral
+        stack must pick the asynchronous one, as ``async with`` does"""
+
+        def __enter__(self):
+            log.append(("wrong-protocol-enter", i))
+            raise TypeError("use async with")
+
+        def __exit__(self, et, ev, tb):
+            log.append(("wrong-protocol-exit", i))
+            return False
 
     async def aexit(et, ev, tb):
         record(ev)
@@ -217,6 +248,12 @@ def entry_objects(i, kind, behaviour, log, block_ref):
     if kind == "acm":
         cm = ACM()
         return ("enter", cm), ("async", cm)
+    if kind == "dual":
+        cm = DualCM()
+        return ("enter", cm), ("async", cm)
+    if kind == "push-dual":
+        cm = DualCM()
+        return ("push", cm), ("async", WrapExit(cm.__aexit__, True))
     if kind == "scm":
         cm = SCM()
         return ("enter", cm), ("sync", cm)
@@ -343,7 +380,7 @@ def entry_space():
     out = []
     for kind in KINDS:
         behaviours = list(BEHAVIOURS)
-        if kind in ("acm", "scm"):
+        if kind in ("acm", "scm", "dual"):
             behaviours.append("enter-fails")
             behaviours.append("enter-fails-attr")
         if kind.startswith("callback"):
@@ -452,7 +489,16 @@ def check_history(case):
                 note()
                 return behave(eid, behaviour, None)
 
-            return {"acm": ACM(), "scm": SCM(), "push-cm": ACM(), "push-scm": SCM(), "push-async": aexit,
+            class Dual(ACM):
+                def __enter__(self):
+                    raise TypeError("use async with")
+
+                def __exit__(self, et, ev, tb):
+                    ran.append((("wrong-protocol", eid), running_on[0]))
+                    return False
+
+            return {"dual": Dual(), "push-dual": Dual(),
+                    "acm": ACM(), "scm": SCM(), "push-cm": ACM(), "push-scm": SCM(), "push-async": aexit,
                     "push-sync": sexit,
                     "callback-async": acb, "callback-sync": scb}[kind]
 
@@ -496,7 +542,7 @@ def check_history(case):
             name = op[0]
             if name == "register":
                 _, kind, behaviour = op
-                if behaviour == "enter-fails" and kind not in ("acm", "scm"):
+                if behaviour == "enter-fails" and kind not in ("acm", "scm", "dual"):
                     behaviour = "falsy"
                 if kind.startswith("callback") and behaviour == "truthy":
                     behaviour = "falsy"
@@ -505,7 +551,7 @@ def check_history(case):
                 thing = make(eid, kind, behaviour)
                 stack = stacks[cur]
                 try:
-                    if kind in ("acm", "scm"):
+                    if kind in ("acm", "scm", "dual"):
                         await stack.enter_context(thing)
                     elif kind.startswith("push"):
                         stack.push(thing)
